@@ -55,6 +55,16 @@ CLAIMED = {
                 "Known finding F24: walls + non-diagonal inverse mass are not reversible.",
         "ref": "DESIGN.md section 3 C07",
     },
+    "C09": {
+        "technique": "Lifecycle.tla field/phase model checked by TLC (RoundTrip, ContinuationEqual, Save enabled in every phase); every TLC "
+                     "operation history replayed on every sampler class / option set with a generic field-by-field comparison",
+        "text": "Every history over {step 1/50/101, save, load, continue} up to 3 (quick) / 4 (thorough) operations containing a load is run "
+                "on 11 sampler configurations (Gibbs with limits and temperature, Metropolis, PCA with/without bounds, HMC with scalar / "
+                "vector / matrix mass, bounds, finite-difference gradient, ensemble with/without bounds): the clone must hold every field of "
+                "the original, give identical read-outs, support the plotting calls, and continue identically after generator states are copied.",
+        "note": "Trusted: TLC, numpy savez/load. File-format compatibility across library versions is not decided.",
+        "ref": "DESIGN.md section 3 C09",
+    },
     "C13": {
         "technique": "Hdi.tla: declarative Good predicate + algorithm model, AlgorithmIsGood model-checked by TLC over every small sample "
                      "and fraction; every enumerated case run through the real sample_hdi in 8 call variants and judged by HdiTrace.tla",
